@@ -519,19 +519,25 @@ def evalTry (recS : RecS) (b : List Stmt) (hasCatch : Bool) (param : Option Name
     | r => r
   evalFinally recS r2 hasFin fb env
 
+def caseStart (r : Val) (cases : List Case) : Option Nat :=
+  match r with
+  | .num i => some i.toNat
+  | _ => defaultIdx cases 0
+
+/-- Run the case block from clause `start` on (fall-through), CaseBlockEvaluation's value threading. -/
+def runCases (recS : RecS) (cases : List Case) (start : Option Nat) (env : Env) (st : St) : Res :=
+  match start with
+  | none => .val .undef st
+  | some i =>
+    match evalStmts recS (caseBodies (cases.drop i)) (some .undef) env st with
+    | .done c st4 => .done (loopExit c) st4
+    | r => r
+
 def evalSwitch (recE : RecE) (recS : RecS) (e : Expr) (cases : List Case) (env : Env) (st : St) : Res :=
   bindVal (recE e env st) fun dv st1 =>
     let p := enterBlock (caseBodies cases) env st1
     bindVal (findCase recE dv cases 0 p.1 p.2) fun r st3 =>
-      let start := match r with
-        | .num i => some i.toNat
-        | _ => defaultIdx cases 0
-      match start with
-      | none => .val .undef st3
-      | some i =>
-        match evalStmts recS (caseBodies (cases.drop i)) (some .undef) p.1 st3 with
-        | .done c st4 => .done (loopExit c) st4
-        | r => r
+      runCases recS cases (caseStart r cases) p.1 st3
 
 def evalFor (recE : RecE) (recT : RecT) (init : ForInit) (test upd : Option Expr) (b : Stmt)
     (lbls : List Name) (env : Env) (st : St) : Res :=
